@@ -446,6 +446,19 @@ class TrAcc(TrProc):
         if isinstance(e, ast.Call) and isinstance(e.func, ast.Name) and e.func.id == "str" and len(e.args) == 1 and not e.keywords:
             b, a = self.expr(e.args[0])
             return b, "(pyFormat %s)" % a
+        if isinstance(e, ast.Call) and isinstance(e.func, ast.Name) and e.func.id == "escape" and len(e.args) == 1 and not e.keywords:
+            # only the standard library's `xml.sax.saxutils.escape`, and only when the module imports it under that name
+            if ("xml.sax.saxutils", "escape") not in getattr(self, "imports", set()):
+                raise Unsupported("escape is not xml.sax.saxutils.escape")
+            b, a = self.expr(e.args[0])
+            return b, "(pyXmlEscape %s)" % a
+        if isinstance(e, ast.Call) and isinstance(e.func, ast.Attribute) and e.func.attr == "dumps" and isinstance(e.func.value, ast.Name) \
+                and e.func.value.id == "json" and len(e.args) == 1 and len(e.keywords) == 1 and e.keywords[0].arg == "ensure_ascii" \
+                and isinstance(e.keywords[0].value, ast.Constant) and e.keywords[0].value.value is False:
+            if ("json", None) not in getattr(self, "imports", set()):
+                raise Unsupported("json is not the standard json module")
+            b, a = self.expr(e.args[0])
+            return b, "(pyJsonDumps %s)" % a
         return TrProc.expr(self, e)
 
     def block_opt(self, stmts, ind):
@@ -510,6 +523,21 @@ def module_consts(tree):
         if isinstance(n, ast.Assign) and len(n.targets) == 1 and isinstance(n.targets[0], ast.Name) \
                 and isinstance(n.value, ast.Constant) and isinstance(n.value.value, str):
             out[n.targets[0].id] = n.value.value
+    return out
+
+
+def module_imports(tree):
+    """{(module, name)} for `from module import name` and {(module, None)} for `import module`, without aliases"""
+    out = set()
+    for n in tree.body:
+        if isinstance(n, ast.ImportFrom):
+            for a in n.names:
+                if a.asname is None:
+                    out.add((n.module, a.name))
+        elif isinstance(n, ast.Import):
+            for a in n.names:
+                if a.asname is None:
+                    out.add((a.name, None))
     return out
 
 
@@ -606,6 +634,25 @@ def main():
                 out.append("/-- `%s.json_encode` (the `functools.cache` decorator is not part of the translation); `None` is `none` -/" % cls)
                 out.append("def int_json_encode_%s (self : IntVal) : Except PyErr (Option Str) :=" % kind)
                 out.append(TrAcc({"value": "value"}, consts, enums, {}).block_opt(f.body, 1))
+            out.append("")
+            imports = module_imports(dt)
+
+            def acc(fields):
+                t = TrAcc(fields, consts, enums, {})
+                t.imports = imports
+                return t
+            f = find(dt, "UAString.xml_encode")
+            out.append("/-- `UAString.xml_encode` (inherited by `UAGuid`); `escape` is `xml.sax.saxutils.escape` -/")
+            out.append("def str_xml_encode (self : StrVal) (%s : Bool) : Except PyErr Str :=" % f.args.args[1].arg)
+            out.append(acc({"value": "value"}).stmts(f.body, 1, ".error .typeError"))
+            f = find(dt, "UAString.json_encode")
+            out.append("/-- `UAString.json_encode` (the `functools.cache` decorator is not part of the translation) -/")
+            out.append("def str_json_encode (self : StrVal) : Except PyErr (Option Str) :=")
+            out.append(acc({"value": "value"}).block_opt(f.body, 1))
+            f = find(dt, "UALocalizedText.xml_encode")
+            out.append("/-- `UALocalizedText.xml_encode` -/")
+            out.append("def loctext_xml_encode (self : LocText) (%s : Bool) : Except PyErr Str :=" % f.args.args[1].arg)
+            out.append(acc({"text": "text", "locale": "locale"}).stmts(f.body, 1, ".error .typeError"))
     except Unsupported as u:
         print("UNSUPPORTED: %s" % u, file=sys.stderr)
         sys.exit(3)
